@@ -26,6 +26,7 @@ LEVEL = "model_checking"
 class MQ(Symbol):
     v: int = 0
     w: int = 0
+    tags: List[int] = field(default_factory=list)
 
 
 @dataclass(eq=False)
@@ -86,6 +87,9 @@ class W:
         self.pool = [Q(ctx.fresh_int("qv%d" % i), ctx.fresh_int("qw%d" % i)) for i in range(2)]
         if not veq and "sub" in needs:
             self.pool.append(MQ2(ctx.fresh_int("qv2"), ctx.fresh_int("qw2")))
+        if not veq and "tags" in needs:
+            for j, q in enumerate(self.pool):
+                q.tags = [ctx.fresh_int("tag%d_%d" % (j, i), 0, 1) for i in range(ctx.choice("ntags%d" % j, 2))]
         self.objs = []
         n = ctx.choice("n", N + 1)
         for i in range(n):
@@ -109,6 +113,14 @@ class W:
         if not self.veq:
             return p is q
         return AND(EQ(p.v, q.v), EQ(p.w, q.w))
+
+
+def _distinct(xs):
+    out = []
+    for x in xs:
+        if not any(x is y for y in out):
+            out.append(x)
+    return out
 
 
 def _in_vals(o, k):
@@ -177,6 +189,20 @@ def _p7b(w):
 def _p7c(w):
     return (dict(kids=match(MQ2)()), (lambda o: OR([isinstance(q, MQ2) for q in o.kids])),
             {"#count": (lambda o: SUM([B2I(isinstance(q, MQ2)) for q in o.kids]))})
+
+
+@pattern("kids=match(Q)(tags=match_any([t]), v=k) (existential first, then a literal, on the same inner element)", needs=("kids", "tags"), veq_ok=False)
+def _p7d(w):
+    # ONE element of kids has the tag and the value (whatever the order of the keywords); an existential condition keeps one
+    # witness per inner element, so an element that occurs twice in the collection counts once
+    ok = lambda q: AND(OR([EQ(t, w.kb[0]) for t in q.tags]), EQ(q.v, w.k[0]))
+    return (dict(kids=match(w.Q)(tags=match_any([w.kb[0]]), v=w.k[0])), (lambda o: OR([ok(q) for q in o.kids])), {"#count": (lambda o: SUM([B2I(ok(q)) for q in _distinct(o.kids)]))})
+
+
+@pattern("kids=match(Q)(v=k, tags=match_any([t])) (literal first, then existential)", needs=("kids", "tags"), veq_ok=False, core=False)
+def _p7e(w):
+    ok = lambda q: AND(OR([EQ(t, w.kb[0]) for t in q.tags]), EQ(q.v, w.k[0]))
+    return (dict(kids=match(w.Q)(v=w.k[0], tags=match_any([w.kb[0]]))), (lambda o: OR([ok(q) for q in o.kids])), {"#count": (lambda o: SUM([B2I(ok(q)) for q in _distinct(o.kids)]))})
 
 
 @pattern("kids=match_any([q0])", needs=("kids",))
